@@ -74,6 +74,8 @@ def check(run):
         raise AnalysisError('anchored class vanished: AxisymmetricVoxel')
     _r1(run, prog, ci)
     _r2(run, ci)
+    from ..cachekey import check_caches
+    check_caches(run, [ci.mod], 'C17-K')
 
 
 def _r1(run, prog, ci):
